@@ -147,3 +147,40 @@ def run(chk):
     chk.add_samples('malformed', len(lines), len(set(lines)), [{'kind': cases[i], 'program': lines[i][:200]} for i in (0, len(lines) // 2, len(lines) - 1)],
                     rule='structure-aware corruptions (bit flips, truncation, insertion/deletion, block size/type fields, literals header, jump table, sequence header, bitstream tail, block splicing, descriptor bytes, zero runs) of libzstd / synthetic / own frames, random byte strings, corrupted dictionaries; each through one of eight entry-point programs and followed by a valid frame on the same decoder; distinct = distinct programs')
     chk.cov['components']['malformed'].update({'mutation_kinds': klass, 'programs_ending_in_error': errs})
+    bit_reader(chk, rng, thorough)
+
+
+def bit_reader(chk, rng, thorough):
+    """the reversed bit reader: implementation = 64-bit container model = abstract reader, values and counters, for
+    scripts that read across the start of the source"""
+    lines = []
+    for _ in range(6000 if thorough else 1500):
+        n = rng.choice([0, 1, 2, 7, 8, 9, 15, 16, 17, 40, rng.range(0, 30)])
+        ops = []
+        for _ in range(rng.range(1, 30)):
+            if rng.below(3) == 0:
+                a, b, c = rng.choice([0, 5, 17, 26, 31, 56]), rng.choice([0, 1, 15, 16, 56]), rng.choice([0, 2, 15, 16, 56])
+                if rng.below(2):
+                    a, b, c = rng.below(32), rng.below(17), rng.below(17)
+                ops.append('t%d,%d,%d' % (a, b, c))
+            else:
+                ops.append('g%d' % rng.choice([0, 1, 3, 7, 8, 9, 31, 32, 55, 56, rng.below(57)]))
+        lines.append('%s %s' % (hexs(rng.bytes(n)), ' '.join(ops)))
+    impl = zh_par('bits', lines)
+    dbg = zh_par('bits', lines, 'debug')
+    m64 = model_run('bits64', lines)
+    mab = model_run('bitsabs', lines)
+    ndis = 0
+    for ln, a, d, b, c in zip(lines, impl, dbg, m64, mab):
+        if a == 'panic' or d == 'panic':
+            chk.violation('the reversed bit reader panicked (%s build)' % ('release' if a == 'panic' else 'debug'),
+                          {'component': 'bit-reader', 'program': ln, 'how': 'echo "<program>" | _build/cargo/{release,debug}/zh bits   (<source-hex> g<n> = get_bits, t<a>,<b>,<c> = get_bits_triple)'})
+            return
+        if not (a == d == b == c):
+            ndis += 1
+            if ndis == 1:
+                chk.tie_broken('correspondence:bit-reader', 'reversed bit reader: release %s | debug %s | container model %s | abstract reader %s ; script %s' % (
+                    (a or '')[:80], (d or '')[:80], (b or '')[:80], (c or '')[:80], ln[:200]))
+    chk.cov['disagreements_checked'] += ndis
+    chk.add_samples('bit-reader', len(lines), len(set(lines)), [{'program': lines[0][:120]}],
+                    rule='sources of 0..40 bytes, scripts of 1..29 reads: get_bits of 0..56 bits and get_bits_triple with offset/length widths up to 56 each (sum below and above 56), reading far past the beginning of the source')
